@@ -184,6 +184,7 @@ def check(prop, tier, njobs=None, write_evidence=True, quiet=False, runs=None, m
     n_known = 0
     lines = []
     seen_known = set()
+    new_viol = []
     for rec in records:
         v = rec.get("violation")
         if not v:
@@ -195,9 +196,29 @@ def check(prop, tier, njobs=None, write_evidence=True, quiet=False, runs=None, m
                 seen_known.add(k["sig"])
                 lines.append(f"KNOWN-FINDING: property={prop} {k['text']} (sig={k['sig']}, e.g. replay={rec.get('replay')})")
         else:
+            new_viol.append(rec)
+    # every reported violation is re-executed from its replay file in a FRESH interpreter before it is
+    # printed: first the program alone; if that does not fail, together with the runs that preceded it in
+    # its worker (state left in the process by earlier programs is part of the history)
+    status = verify_replays(prop, new_viol) if new_viol else {}
+    unverified = 0
+    for rec in new_viol:
+        v = rec["violation"]
+        st = status.get(rec["r"], "not-checked")
+        if st in ("reproduced", "reproduced-with-history"):
             n_viol += 1
             lines.append(f"VIOLATION property={prop} replay={rec.get('replay')}")
-            lines.append(f"  invariant={v['invariant_id']} signature={v['signature']} run={rec['r']} seed={seed}")
+            lines.append(f"  invariant={v['invariant_id']} signature={v['signature']} run={rec['r']} seed={seed} replay_check={st}")
+        elif st == "not-checked":
+            n_viol += 1
+            lines.append(f"  further violating run {rec['r']}: invariant={v['invariant_id']} signature={v['signature']} replay={rec.get('replay')}")
+        else:
+            unverified += 1
+            lines.append(f"UNREPRODUCED property={prop} run={rec['r']} invariant={v['invariant_id']} replay={rec.get('replay')} (failed in its worker, not in a fresh interpreter, even with its history)")
+    if unverified and not any(s in ("reproduced", "reproduced-with-history") for s in status.values()):
+        errors.append(f"{unverified} violation(s) could not be reproduced from their replay files in a fresh interpreter: nondeterminism in the harness or in the code")
+    elif new_viol and not any(s in ("reproduced", "reproduced-with-history") for s in status.values()):
+        errors.append("violations found but none was replay-checked")
     if write_evidence and not os.environ.get("VERIF_NO_EVIDENCE"):
         from sim import evidence
 
@@ -215,6 +236,54 @@ def check(prop, tier, njobs=None, write_evidence=True, quiet=False, runs=None, m
     if not quiet:
         print(f"[{prop}] runs={ok_runs} violations={n_viol} known={n_known} unsupported={sum(1 for r in records if 'unsupported' in r)} wall={wall:.1f}s")
     return (1 if n_viol else 0), records
+
+
+def verify_replays(prop, recs, max_checked=6, per_invariant=2):
+    """Replay a selection of violation records in fresh worker processes."""
+    chosen, per = [], {}
+    for rec in recs:
+        inv = rec["violation"]["invariant_id"]
+        if per.get(inv, 0) < per_invariant and len(chosen) < max_checked and rec.get("replay"):
+            per[inv] = per.get(inv, 0) + 1
+            chosen.append(rec)
+
+    def jobs_for(rs):
+        out = []
+        for rec in rs:
+            doc = json.load(open(rec["replay"]))
+            out.append({"mode": "replay", "prop": prop, "seed": core.verif_seed(), "tier": "quick",
+                        "float": doc.get("float", doc["program"].get("float", "x64")),
+                        "replay": os.path.abspath(rec["replay"]), "hang_s": 3000, "kill_s": 3300})
+        return out
+
+    def same(rr, rec):
+        v = rr.get("violation")
+        return bool(v) and v["invariant_id"] == rec["violation"]["invariant_id"] and v["signature"] == rec["violation"]["signature"]
+
+    status = {}
+    recs1, _ = run_jobs(jobs_for(chosen), min(len(chosen), int(os.environ.get("VERIF_JOBS", "16"))), label="vfy")
+    by_path = {}
+    for rr in recs1:
+        by_path[rr.get("r")] = rr
+    retry = []
+    for rec in chosen:
+        rr = by_path.get(rec["r"])
+        if rr is not None and same(rr, rec):
+            status[rec["r"]] = "reproduced"
+        else:
+            retry.append(rec)
+    for rec in retry:
+        doc = json.load(open(rec["replay"]))
+        doc["history"] = rec.get("history")
+        doc["history_note"] = "the program alone does not fail in a fresh interpreter; it fails after the listed runs of the same worker (state left in the process)"
+        json.dump(doc, open(rec["replay"], "w"), indent=1, sort_keys=True)
+    if retry:
+        recs2, _ = run_jobs(jobs_for(retry), min(len(retry), int(os.environ.get("VERIF_JOBS", "16"))), label="vfyh")
+        by2 = {rr.get("r"): rr for rr in recs2}
+        for rec in retry:
+            rr = by2.get(rec["r"])
+            status[rec["r"]] = "reproduced-with-history" if (rr is not None and same(rr, rec)) else "unreproduced"
+    return status
 
 
 def replay(prop, path):
